@@ -339,7 +339,7 @@ package kvgraph
 // which is why 'unindexed' below cannot hold: KNOWN FINDING, the label index keeps the
 // deleted vertex (label scans and label listings still report it).
 //@ func (*KVInterfaceGDB).DelVertex
-//@   property C03
+//@   property C03 C04
 //@   option prelude=keys,kv,idxkeys
 //@   option load=kvindex,kvi,timestamp
 //@   option globals=kvgraph
